@@ -272,20 +272,32 @@ theorem latch_is_per_object_and_released_per_key :
        [none, some (true, 1, 7, true), none, some (true, 0, 8, true), none, some (true, 0, 8, true)]) := by
   refine ⟨by decide, by decide⟩
 
+/-- **The entry's TTL is the shortest answer TTL.**  The TTL handed to the cache for a reply is at
+most the TTL of every record of its answer section (first record `r`, the others `o`), at most one
+year, and 120 s for an empty answer: no record is served past its own TTL because another record of
+the same reply lives longer. -/
+theorem entry_ttl_is_minimum_over_answers (n r o : Nat) :
+    normTtl n r o ≤ 31536000 ∧ (n ≥ 1 → normTtl n r o ≤ r) ∧ (n ≥ 2 → normTtl n r o ≤ o) ∧
+    (n = 0 → normTtl n r o = 120) ∧ (n ≥ 2 → r ≤ 31536000 → o ≤ 31536000 → normTtl n r o = min r o) := by
+  unfold normTtl
+  refine ⟨by omega, ?_, ?_, ?_, ?_⟩ <;> intro h <;> (try intro h2 h3) <;> split <;> (try split) <;> omega
+
+example : normTtl 2 3600 30 = 30 ∧ normTtl 2 30 3600 = 30 ∧ normTtl 1 3600 30 = 3600 ∧ normTtl 0 5 5 = 120 := by decide
+
 /-! ### fixed TTL -/
 
 /-- **Fixed TTL, case-insensitively.**  If the last `fixed_domain_ttl` line for a name (compared
 without regard to ASCII case) says `f`, then every insert whose question name is that name in any
 spelling gets `f` as its deadline TTL, whatever TTL the upstream reply carried. -/
 theorem fixed_ttl_applies (opt : Bool) (stale mx : Int) (pre post : List (List Char × Int)) (name : List Char)
-    (f : Int) (hpost : ∀ q ∈ post, q.1.map lowerAscii ≠ name.map lowerAscii)
-    (host : List Char) (hhost : host.map lowerAscii = name.map lowerAscii) (ttl : Int) :
+    (f : Int) (hpost : ∀ q ∈ post, fixedName q.1 ≠ fixedName name)
+    (host : List Char) (hhost : host.map lowerAscii = fixedName name) (ttl : Int) :
     effTtl (Cfg.normalize opt stale mx (pre ++ (name, f) :: post)) host ttl = f := by
   simp only [effTtl, Cfg.normalize, hhost, lookupFixed_parseFixed pre post name f hpost]
 
 /-- … and a name without a line keeps the TTL of the reply. -/
 theorem fixed_ttl_absent (opt : Bool) (stale mx : Int) (raw : List (List Char × Int)) (host : List Char)
-    (h : ∀ q ∈ raw, q.1.map lowerAscii ≠ host.map lowerAscii) (ttl : Int) :
+    (h : ∀ q ∈ raw, fixedName q.1 ≠ host.map lowerAscii) (ttl : Int) :
     effTtl (Cfg.normalize opt stale mx raw) host ttl = ttl := by
   simp only [effTtl, Cfg.normalize, lookupFixed_parseFixed_none raw _ h]
 
@@ -304,24 +316,24 @@ example :
 for every query type and route. -/
 theorem key_case_insensitive (n1 n2 : List Char) (h : n1.map lowerAscii = n2.map lowerAscii) (q : Nat) (r : Route) :
     responseKey n1 q r = responseKey n2 q r := by
-  unfold responseKey cacheKey
+  unfold responseKey cacheKey kname
   rw [canon_case_insensitive n1 n2 h]
 
 /-- **Keys separate names, types and upstream scopes.**  For question names without a `|` character,
 two requests share a response-cache key only if their names are equal up to ASCII case and the
 trailing dot, their query types are equal and they were routed the same way. -/
-theorem key_injective (n1 n2 : List Char) (q1 q2 : Nat) (r1 r2 : Route) (hn1 : '|' ∉ n1) (hn2 : '|' ∉ n2)
-    (h : responseKey n1 q1 r1 = responseKey n2 q2 r2) : canon n1 = canon n2 ∧ q1 = q2 ∧ r1 = r2 := by
+theorem key_injective (n1 n2 : List Char) (q1 q2 : Nat) (r1 r2 : Route)
+    (h : responseKey n1 q1 r1 = responseKey n2 q2 r2) : kname n1 = kname n2 ∧ q1 = q2 ∧ r1 = r2 := by
   unfold responseKey at h
-  obtain ⟨h1, h2, h3⟩ := scopedKey_inj hn1 hn2 h
+  obtain ⟨h1, h2, h3⟩ := scopedKey_inj h
   exact ⟨h1, h2, scopeOf_inj h3⟩
 
 /-- **Question class.**  The key of a request separates name, type, **class** and route: two requests
 (names without `|`) share a response-cache key only if all four agree (names up to ASCII case and
 trailing dot).  For class IN the key is the plain `responseKey`. -/
-theorem request_key_injective (n1 n2 : List Char) (q1 q2 c1 c2 : Nat) (r1 r2 : Route) (hn1 : '|' ∉ n1) (hn2 : '|' ∉ n2)
-    (h : requestKey n1 q1 c1 r1 = requestKey n2 q2 c2 r2) : canon n1 = canon n2 ∧ q1 = q2 ∧ c1 = c2 ∧ r1 = r2 :=
-  requestKey_inj hn1 hn2 h
+theorem request_key_injective (n1 n2 : List Char) (q1 q2 c1 c2 : Nat) (r1 r2 : Route)
+    (h : requestKey n1 q1 c1 r1 = requestKey n2 q2 c2 r2) : kname n1 = kname n2 ∧ q1 = q2 ∧ c1 = c2 ∧ r1 = r2 :=
+  requestKey_inj h
 
 theorem request_key_class_IN (n : List Char) (q : Nat) (r : Route) : requestKey n q classIN r = responseKey n q r :=
   requestKey_IN n q r
@@ -337,14 +349,14 @@ theorem request_touches_only_its_key (w : World) (t : Int) (name : List Char) (q
     (∀ op ∈ askOps w t name qtype qclass r rep g,
       (∃ now ign, op = .lookup now (requestKey name qtype qclass r) ign) ∨
       (∃ now, op = .refreshDone now (requestKey name qtype qclass r)) ∨
-      (op = .insert (t + SEC) (requestKey name qtype qclass r) (fqdn name) qtype (normTtl rep.nAns rep.rttl)
+      (op = .insert (t + SEC) (requestKey name qtype qclass r) (fqdn name) qtype (normTtl rep.nAns rep.rttl rep.ottl)
               rep.ans rep.nAns rep.ns false ∧ qclass = classIN ∧ rep.rcode = 0)) := by
   refine ⟨rfl, ?_⟩
   intro op hop
   have hstore : ∀ o ∈ (if cacheable true 1 rep.rcode qclass = true then
-      [Op.insert (t + SEC) (requestKey name qtype qclass r) (fqdn name) qtype (normTtl rep.nAns rep.rttl)
+      [Op.insert (t + SEC) (requestKey name qtype qclass r) (fqdn name) qtype (normTtl rep.nAns rep.rttl rep.ottl)
         rep.ans rep.nAns rep.ns false] else []),
-      o = .insert (t + SEC) (requestKey name qtype qclass r) (fqdn name) qtype (normTtl rep.nAns rep.rttl)
+      o = .insert (t + SEC) (requestKey name qtype qclass r) (fqdn name) qtype (normTtl rep.nAns rep.rttl rep.ottl)
               rep.ans rep.nAns rep.ns false ∧ qclass = classIN ∧ rep.rcode = 0 := by
     intro o ho
     split at ho
@@ -375,9 +387,9 @@ theorem request_touches_only_its_key (w : World) (t : Int) (name : List Char) (q
 -- non-vacuity: a CH-class request is forwarded and not cached; the IN request after it is forwarded too
 example :
     let c := Cfg.normalize true 60 0 []
-    let a1 := (start c).ask 0 ['v'] 16 3 (.asIs none) ⟨300, 7, 1, 0, 0⟩
-    let a2 := a1.1.ask (5 * SEC) ['v'] 16 1 (.asIs none) ⟨300, 8, 1, 0, 0⟩
-    let a3 := a2.1.ask (9 * SEC) ['v'] 16 1 (.asIs none) ⟨300, 9, 1, 0, 0⟩
+    let a1 := (start c).ask 0 ['v'] 16 3 (.asIs none) ⟨300, 300, 7, 1, 0, 0⟩
+    let a2 := a1.1.ask (5 * SEC) ['v'] 16 1 (.asIs none) ⟨300, 300, 8, 1, 0, 0⟩
+    let a3 := a2.1.ask (9 * SEC) ['v'] 16 1 (.asIs none) ⟨300, 300, 9, 1, 0, 0⟩
     a1.2.map LRes.view = [none, none] ∧ a1.1.st.entries.length = 0 ∧
     a2.2.map LRes.view = [none, none, some (false, 300, 8, false)] ∧
     a3.2.map LRes.view = [some (false, 300, 8, false)] := by
@@ -385,9 +397,9 @@ example :
   refine ⟨by decide, by decide, by decide, by decide⟩
 
 /-- the family key used by reject-routing (`RemoveDnsRespCacheFamily`) is the unscoped key -/
-theorem base_of_response_key (n : List Char) (q : Nat) (r : Route) (hn : '|' ∉ n) :
+theorem base_of_response_key (n : List Char) (q : Nat) (r : Route) :
     baseKey (responseKey n q r) = cacheKey n q :=
-  baseKey_scopedKey q _ hn
+  baseKey_scopedKey q _
 
 example : responseKey ['A', '.', 'b'] 28 (.upstream ['u']) = "a.b.28|upstream@u".toList ∧
     responseKey ['a', '.', 'B', '.'] 28 (.upstream ['u']) = "a.b.28|upstream@u".toList ∧
